@@ -196,7 +196,7 @@ CLAIMS = {
         "right-isometric sites right of c from any prior knowledge and that the canonical-form query lists c. Ties: the isometry the "
         "model derives after random sequences of shift/set/normalize/flip (QR and SVD) must be measured on the real tensors and its "
         "centres reported by the real check_canonical_form; the independently contracted vector must be unchanged by every operation. "
-        "PARTIAL: LAPACK returning a valid factorisation (SVD mode: within 1e-12), flip_network and zero padding are tied numerically. Extended: flip_network and zero padding are now theorems (flip_preserves_amplitudes, zero_padding_preserves); operation sequences on MPS with aliased tensors and rescaled gauges. Broken networks are outcomes of the operation sequence, not harness crashes. SVD moves on rescaled and small-norm states (found a genuine defect, fixed in /repo 1c6febf); canonical-form query as an oracle; non-trailing rank deficiency.",
+        "PARTIAL: LAPACK returning a valid factorisation (SVD mode: within 1e-12), flip_network and zero padding are tied numerically. Extended: flip_network and zero padding are now theorems (flip_preserves_amplitudes, zero_padding_preserves); operation sequences on MPS with aliased tensors and rescaled gauges. Broken networks are outcomes of the operation sequence, not harness crashes. SVD moves on rescaled and small-norm states (found a genuine defect, fixed in /repo 1c6febf); canonical-form query as an oracle; non-trailing rank deficiency. Padding of chains outside the qubit staircase (sites of dimension three, over-wide bonds, arbitrary gauge); refused requests must leave the state untouched.",
         COMMON_NOTE,
         "DESIGN.md §3 C10"),
     "C12": (
@@ -209,7 +209,7 @@ CLAIMS = {
         "branches of measure_single_shot is forced (scripted choice) for random entangled states in the Z, X and Y bases and the product "
         "of the vectors handed to choice is compared with the dense Born probability; keys vs the model. Search: in-place measure() "
         "(probability and projected state, both outcomes) and weak simulations (counts, key range, no zero-probability outcome). "
-        "PARTIAL: basis rotation and numpy's choice are modelled, not verified. Extended: rotated-basis theorem (a local basis rotation keeps the site right-isometric); borderline noise strengths and run histories in the weak-run oracle. Registers of 64 and more sites (encodeZ, wide forced strings, 66-qubit weak run).",
+        "PARTIAL: basis rotation and numpy's choice are modelled, not verified. Extended: rotated-basis theorem (a local basis rotation keeps the site right-isometric); borderline noise strengths and run histories in the weak-run oracle. Registers of 64 and more sites (encodeZ, wide forced strings, 66-qubit weak run). The public one-shot entry point measure_shots(1, basis) with forced outcomes in all three bases; pool shots on X/Y eigenstates.",
         COMMON_NOTE,
         "DESIGN.md §3 C12"),
     "C05": (
